@@ -20,7 +20,15 @@ def build_instance(inst):
     them other job ids / positions / operation ids."""
     jobs = build_jobs(inst)
     if inst.get("recycled"):
-        JobShopInstance([[o for job in reversed(jobs) for o in reversed(job)]], name="other")
+        if sum(len(j) for j in jobs) % 2:
+            JobShopInstance([[o for job in reversed(jobs) for o in reversed(job)]], name="other")
+        else:
+            # ... or to an earlier version of the same instance whose first
+            # job was one operation longer (same jobs and positions, other
+            # operation ids)
+            longer = [list(job) for job in jobs]
+            longer[0] = longer[0] + [Operation(0, 1)]
+            JobShopInstance(longer, name="earlier version")
     return instance_from_jobs(inst, jobs)
 
 
@@ -66,11 +74,19 @@ def _custom_identity(dispatcher, operations):
     return list(operations)
 
 
+def _custom_reserve_machine0(dispatcher, operations):
+    """Hides every operation that could run on machine 0 (a machine reserved
+    for maintenance): the result may be empty although operations are ready.
+    No specification in the model: only for checks that read the real lists."""
+    return [op for op in operations if 0 not in op.machines]
+
+
 CUSTOM_FILTERS = {
     "custom_first_job_only": _custom_first_job_only,
     "custom_last_job_only": _custom_last_job_only,
     "custom_hide_earliest": _custom_hide_earliest,
     "custom_identity": _custom_identity,
+    "custom_reserve_machine0": _custom_reserve_machine0,
 }
 
 
